@@ -21,6 +21,9 @@ import PS.Proofs.Enum.HeapSearch
 import PS.Proofs.Enum.HeapInv
 import PS.Proofs.Enum.BucketOrder
 import PS.Model.Prob
+import PS.Proofs.Enum.HSHeaps
+import PS.Proofs.Enum.HSOrder
+import PS.Proofs.Enum.HSOrderCheck
 namespace PS.C03HS
 open PS PS.G PS.HS
 
@@ -124,6 +127,90 @@ example : Heapq.WeakOrder (fun a b : Nat => decide (a < b)) :=
    fun a b c h1 h2 => by simp only [decide_eq_false_iff_not] at h1 h2 ⊢; omega⟩
 
 example : Heapq.pop (fun a b : Nat => decide (a < b)) [1, 3, 2, 7, 4] = some (1, [2, 3, 4, 7]) := by decide
+
+/-! ### the machine: every heap is valid in every reachable state (unconditional) -/
+section Heaps
+variable {S T π : Type} [DecidableEq S] [DecidableEq T]
+
+/-- `HS.HInv E s`: every `heaps[nt]` satisfies heapq's invariant.  It holds initially and every
+    `next(generator)` keeps it — any grammar, any filter, any strict weak order of priorities -/
+theorem C03_HS_heaps_valid (E : Env S T π) (w : Heapq.WeakOrder E.ops.lt) (fuel : Nat) :
+    HInv E (Gen.new E.G : Gen S T π).st ∧
+    ∀ (g g' : Gen S T π) (r : Option Prog), HInv E g.st → HS.next E fuel g = some (g', r) → HInv E g'.st :=
+  ⟨hinv_new E, fun g g' r hg h => next_hinv E w fuel g g' r hg h⟩
+
+/-- hence every pop made by `query` returns an element of minimal priority (heap search: of maximal
+    probability) of its heap, and leaves a valid heap -/
+theorem C03_HS_pop_max (E : Env S T π) (w : Heapq.WeakOrder E.ops.lt) (s : St S T π) (hs : HInv E s)
+    (nt : NT S T) (e : π × Prog) (h' : List (π × Prog))
+    (hp : Heapq.pop (ltE E.ops) (s.heapOf nt) = some (e, h')) :
+    (∀ y ∈ s.heapOf nt, E.ops.lt y.1 e.1 = false) ∧ HInv E (s.setHeap nt h') :=
+  ⟨(Heapq.pop_isHeap (ltE_weakOrder E.ops w) _ _ _ (hs nt) hp).2, hs.pop w nt e h' hp⟩
+end Heaps
+
+/-! ### the order of the yielded sequence (acyclic context-free grammars, heap search, no filter) -/
+section Order
+variable {S : Type} [DecidableEq S]
+
+/-- **the order invariant is preserved by `query`**: `HS.OInv E s` says, for every non-terminal,
+    (I4) no heap element is more probable than a program already popped, a recorded successor is not
+    more probable than its predecessor, (I1) the arguments of every program ever pushed were popped
+    for their non-terminals.  Under `HS.OrdHyp` (priorities = probabilities, non-negative weights, the
+    grammar is NOT recursive: `rank` decreases from a non-terminal to the non-terminals of its rules)
+    and the precondition (I5) "the key was popped for the non-terminal", `query` keeps it.
+    On recursive grammars this is false (`finding_C03_HS_reentrant`). -/
+theorem C03_HS_order_step (E : Env S Unit Rat) (rank : NT S Unit → Nat) (H : OrdHyp E rank) (n : Nat)
+    (s s' : St S Unit Rat) (nt : NT S Unit) (p r : Option Prog)
+    (hs : SInv E s) (hn : NInv s) (hh : HInv E s) (ho : OInv E s)
+    (hp : ∀ x, p = some x → ∃ k, AList.lookup k (s.succOf nt) = some x)
+    (h : query E n s nt p = some (s', r)) : OInv E s' :=
+  (big_order H (big_of_query E h) hs hn hh ho trivial trivial hp).1
+
+/-- **best-first order, partial**: the yielded probabilities are non-increasing, PROVIDED the state
+    produced by the prologue of `generator()` satisfies the order invariant (`hpro`).
+    FULL statement = the same without `hpro`.  What is missing is exactly
+    `prologue E fuel (St.empty G) = some s0 → OInv E s0`, i.e. (I1) at initialisation: the first
+    program popped for each non-terminal is `max_priority[S]` (tie-breaking of `__compute_max_prio__`
+    and of `heappush` agree) — checked by kernel evaluation on the example below and, on every generated
+    case, by the exact correspondence model = implementation plus the sortedness oracle. -/
+theorem C03_HS_sorted_partial (E : Env S Unit Rat) (rank : NT S Unit → Nat) (H : OrdHyp E rank)
+    (hnd : RowsNodup E.G) (hf : ∀ p, E.filter p = true) (fuel k : Nat)
+    (hpro : ∀ s0, prologue E fuel (St.empty E.G) = some s0 → OInv E s0)
+    (g' : Gen S Unit Rat) (out : List Prog) (b : Bool)
+    (h : take E fuel k (Gen.new E.G) [] = some (g', out, b)) :
+    out.Pairwise (fun p q => G.prob E.G E.W q E.G.start ≤ G.prob E.G E.W p E.G.start) :=
+  (take_order H hnd hf fuel k _ _ _ _ _ (og_new E fuel hpro) h).sorted
+
+/-! non-vacuity: `S0 → 1 | + S1 S1`, `S1 → 1 | x` -/
+def oInt : Ty := .base "int"
+def oOne : Sym := Sym.prim "1" oInt
+def oX : Sym := Sym.var 0 oInt
+def oPlus : Sym := Sym.prim "+" (.arrow oInt (.arrow oInt oInt))
+def oG : TT Nat Unit := ⟨(oInt, (0, ())), [((oInt, (0, ())), [(oOne, ([], ())), (oPlus, ([(oInt, 1), (oInt, 1)], ()))]),
+                                          ((oInt, (1, ())), [(oOne, ([], ())), (oX, ([], ()))])]⟩
+def oW : AList (NT Nat Unit) (AList Sym Rat) :=
+  [((oInt, (0, ())), [(oOne, 1/2), (oPlus, 1/2)]), ((oInt, (1, ())), [(oOne, 1/4), (oX, 3/4)])]
+def oE : Env Nat Unit Rat := { G := oG, W := oW, ops := probOps 0, filter := fun _ => true }
+def oRank (nt : NT Nat Unit) : Nat := 1 - nt.2.1
+
+theorem oHyp : OrdHyp oE oRank :=
+  ⟨⟨0, rfl⟩, wnonneg_of_all oW (by decide +kernel), acyclic_of_all oG oRank (by decide)⟩
+
+/-- the state produced by the prologue satisfies the order invariant (kernel evaluation) -/
+theorem oPro : ∀ s0, prologue oE 50 (St.empty oG) = some s0 → OInv oE s0 := by
+  have h : (prologue oE 50 (St.empty oG)).all (oinvB oE) = true := by decide +kernel
+  intro s0 hs0
+  rw [hs0] at h
+  exact oinv_of_oinvB oE s0 h
+
+example : ∀ g' out b, take oE 50 10 (Gen.new oG) [] = some (g', out, b) →
+    out.Pairwise (fun p q => G.prob oG oW q oG.start ≤ G.prob oG oW p oG.start) :=
+  fun g' out b h => C03_HS_sorted_partial oE oRank oHyp (rowsNodup_of_all oG (by decide)) (fun _ => rfl) 50 10
+    oPro g' out b h
+
+example : (take oE 50 10 (Gen.new oG) []).map (fun r => r.2.1.map (fun p => G.prob oG oW p oG.start)) =
+    some [1/2, 9/32, 3/32, 3/32, 1/32] := by decide +kernel
+end Order
 
 /-! ### finding: best-first order is violated on recursive grammars (re-entrant `query`) -/
 section Reentrant
